@@ -10,6 +10,7 @@ package rosort
 //@   props C18
 //@   binds subscriberCtx destination source
 //@   calls CollectWithContext CompleteWithContext ErrorWithContext NextWithContext Slice
+//@   params subscriberCtx destination
 //@   maypanic
 //@   track call.CollectWithContext call.Slice call.SliceStable destination.* loop.*
 //@   ensures [source-error-is-forwarded|C18] res(call.CollectWithContext, 2) != nil ==> trace(call.CollectWithContext(subscriberCtx, source), destination.ErrorWithContext(res(call.CollectWithContext, 1), res(call.CollectWithContext, 2)))
@@ -24,6 +25,7 @@ package rosort
 //@   props C18
 //@   binds subscriberCtx destination source
 //@   calls CollectWithContext CompleteWithContext ErrorWithContext NextWithContext Slice
+//@   params subscriberCtx destination
 //@   maypanic
 //@   track call.CollectWithContext call.Slice call.SliceStable destination.* loop.*
 //@   ensures [source-error-is-forwarded|C18] res(call.CollectWithContext, 2) != nil ==> trace(call.CollectWithContext(subscriberCtx, source), destination.ErrorWithContext(res(call.CollectWithContext, 1), res(call.CollectWithContext, 2)))
@@ -38,6 +40,7 @@ package rosort
 //@   props C18
 //@   binds subscriberCtx destination source
 //@   calls CollectWithContext CompleteWithContext ErrorWithContext NextWithContext SliceStable
+//@   params subscriberCtx destination
 //@   maypanic
 //@   track call.CollectWithContext call.Slice call.SliceStable destination.* loop.*
 //@   ensures [source-error-is-forwarded|C18] res(call.CollectWithContext, 2) != nil ==> trace(call.CollectWithContext(subscriberCtx, source), destination.ErrorWithContext(res(call.CollectWithContext, 1), res(call.CollectWithContext, 2)))
